@@ -26,7 +26,7 @@ def tokenise_loose(text):
 
 class C14(Prop):
     id = 'C14'
-    rule_added = '40% of the parse cases call parse() again on the same object (same text, or the text replaced by one of the other validity). Enumerated: 96 refused-declaration sequences (a refused constant declaration leaves no trace).'
+    rule_added = '40% of the parse cases call parse() again on the same object (same text, or the text replaced by one of the other validity). Enumerated: 96 refused-declaration sequences (a refused constant declaration leaves no trace). Mutation: a field reference appended to an identifier.'
     rule = ('(A) fuzzing of parse(): generated valid texts (canonical and variant spellings, assertion heads, in-text '
             'declarations, comments) and their token-level mutants (delete/duplicate/swap/replace/insert a token of the '
             'language, unbalanced brackets, truncation at a random position), character-level mutants (illegal ASCII, '
